@@ -92,6 +92,20 @@ CHECKS['C14'] = dict(
          'Exhaustive over a finite space (reported as exploration).',
     note='Trusted: numpy eigvalsh; the independent parser as second reader. Fresh interpreters import the same working tree.',
     ref='DESIGN.md C14')
+CHECKS['C08'] = dict(
+    technique='Hypothesis grammar-directed and molecule-directed RING fragments x generated molecules, differential against a brute-force reference matcher; layout/label metamorphic relation; bounded-exhaustive small fragments',
+    text='Fragments (1-5 atoms; all symbol classes, prefixes, suffixes, bond kinds, constraint forms, comparison operators, negation, molecule prefixes; random layout and keyword-like labels) are rendered to text, '
+         'read by the library and matched against molecules in the as-read and scheme-normalised states; the returned tuple set must equal the set enumerated by vlib/ringref.py (all injective assignments, own '
+         'molecule model), contain no duplicates, and not change under re-layout / re-labelling. 1- and 2-atom fragments over a reduced alphabet are enumerated against a fixed molecule pool. Exploration.',
+    note='Trusted: RDKit SMILES reading, ring perception, aromaticity flags. Not trusted: RDKit substructure search (what the code delegates to). Unspecified features (* suffix, allylic, lower-case symbols) not generated.',
+    ref='DESIGN.md C08')
+CHECKS['C02'] = dict(
+    technique='Hypothesis molecule generators x shipped and synthetic scheme files, differential against an independent scheme interpreter (own RING parser + brute-force matcher + group naming)',
+    text='Generated molecules (gas C/H/O, alkenes with cis/trans marks and long chains, aromatics, radicals, Pt/Ru adsorbates, out-of-vocabulary) are decomposed by the library and by vlib/schemeref.py, which reads '
+         'the same scheme.yaml as a program; key sets and counts must agree and PatternMatchError must be raised exactly when the reference finds an unassigned or ambiguous atom. Pattern coverage of each scheme file is '
+         'reported. Exploration; ortho-fused aromatics are a known finding.',
+    note='Trusted: RDKit SMILES reading, Kekulisation, ring perception; PyYAML. The denotation table of DESIGN.md 3.3.',
+    ref='DESIGN.md C02')
 NOT_YET = {}
 
 def main():
